@@ -99,6 +99,15 @@ M('ufunc-mirror-wrong', ['C37', 'C01'], ('sectypes', "operator.gt: operator.lt, 
 M('ufunc-reflected-method-wrong', ['C37'], ('sectypes', "operator.floordiv: '__rfloordiv__', operator.mod: '__rmod__',", "operator.floordiv: '__rmod__', operator.mod: '__rfloordiv__',"))
 M('ufunc-drop-reflected-methods', ['C37'], ('sectypes', "            if rname := reflected_methods.get(op):\n                return getattr(inputs[1], rname)(inputs[0])\n\n", ""))
 
+# ---------------------------------------------------------------- FX1: first-element flags (revert parts of fix 791be17)
+M('revert-fix-list-flags-vector_add', ['C03'], (RT, "            x_integral = all(a.integral for a in x)\n            y_integral = all(isinstance(b, int) or\n                             isinstance(b, self.SecureObject) and b.integral for b in y)\n            await self.returnType((stype, x_integral and y_integral), n)\n\n        x, y = await self.gather(x, y)\n        for i in range(n):\n            x[i] = x[i] + y[i]", "            y0_integral = (isinstance(y[0], int) or\n                           isinstance(y[0], self.SecureObject) and y[0].integral)\n            await self.returnType((stype, x[0].integral and y0_integral), n)\n\n        x, y = await self.gather(x, y)\n        for i in range(n):\n            x[i] = x[i] + y[i]"))
+M('revert-fix-list-flags-schur', ['C03'], (RT, "                x_integral = all(a.integral for a in x)\n                y_integral = all(b.integral for b in y)\n                await self.returnType((sftype, x_integral and y_integral), n)", "                x_integral = x[0].integral\n                y_integral = y[0].integral\n                await self.returnType((sftype, x_integral and y_integral), n)"))
+M('revert-fix-list-flags-matrix', ['C03'], (RT, "            A_integral = all(a.integral for r in A for a in r)", "            A_integral = A[0][0].integral"))
+M('revert-fix-list-flags-reshare', ['C03'], (RT, "                else:\n                    rettype = (sftype, all(a.integral for a in x))\n            if x_is_list:", "                else:\n                    rettype = (sftype, x[0].integral)\n            if x_is_list:"))
+M('revert-fix-list-flags-ifelse', ['C03'], (RT, "            await self.returnType((stype, all(b.integral for b in x + y)), n)", "            await self.returnType((stype, x[0].integral and y[0].integral), n)"))
+M('list-flags-ifelse-half', ['C03'], (RT, "            await self.returnType((stype, all(b.integral for b in x + y)), n)", "            await self.returnType((stype, all(b.integral for b in x)), n)"))
+M('sum-first-element-flag', ['C03'], (RT, "            await self.returnType((stype, all(a.integral for a in x)))", "            await self.returnType((stype, x[0].integral))"))
+
 B('rename-local-pcw',
   (AC, "            pc = self.runtime._program_counter\n            self.runtime._program_counter = self.pc\n",
        "            saved = self.runtime._program_counter\n            self.runtime._program_counter = self.pc\n"),
